@@ -25,9 +25,15 @@ class Recorder:
     def __init__(self):
         self.events = []
         self.log_attempts = False
+        self.overflow_at = None          # when this many events are held, overflow() is called once (a run-away script)
+        self.overflow = None
 
     def add(self, *event):
         self.events.append(tuple(event))
+        if self.overflow_at is not None and len(self.events) >= self.overflow_at:
+            self.overflow_at, hook = None, self.overflow
+            if hook is not None:
+                hook()
 
 
 class FaultPlan:
